@@ -7,6 +7,11 @@
   is therefore an unclassified site and breaks the check until a human has looked at it and
   added / changed a row.
 
+  Kind `ordered` = a `range` over a slice that other code extends in map-iteration order
+  (procbuilder.Allopcodes, BasmInstance.matchers / matchersOps): walking it is as order sensitive as
+  walking the map, so these loops are inventoried and classified like the map walks; a loop that
+  loses its `sorted` flag (the sort after it was removed) no longer matches its row.
+
   ROWS MUST STAY SORTED BY IDENTITY (bytewise), see `covered`.
 
   Row = site identity `kind|file|function|expression|ordinal` (no line numbers), the class the
@@ -89,6 +94,24 @@ def rows : List Row := [
   ⟨0x047b25651bfe252a, "go|pkg/bmreqs/engine.go|(*ReqRoot).run|rg.Clone|0", [], .insens "requirement engine: one server goroutine answering requests in order over unbuffered channels (sequential by construction); Clone is a request to itself"⟩,
   ⟨0xe9bdf4a35c6a5a72, "go|pkg/bmreqs/reqroot.go|NewReqRoot|rg.run|0", [], .insens "requirement engine: one server goroutine answering requests in order over unbuffered channels (sequential by construction); Clone is a request to itself"⟩,
   ⟨0x0f823cefe591fca3, "go|pkg/bondgo/converter.go|Assembly_2_Processor|reqmnts.Usage_Monitor|0", [], .insens "usage monitor service goroutine, same protocol as in cmd/bondgo (C12)"⟩,
+  ⟨0x6b89f360dbbb5589, "ordered|pkg/basm/basm.go|(*BasmInstance).BasmInstanceInit|procbuilder.Allopcodes|0", ["append", "calls", "output"], .insens "runs in BasmInstanceInit, before any dynamic instruction has been created by this assembler run: Allopcodes still holds its static part (and what a loaded machine file created, in file order)"⟩,
+  ⟨0xf7235ee36d7f3a9c, "ordered|pkg/basm/basm.go|(*BasmInstance).PrintInit|bi.matchers|0", ["calls", "output"], .debugOnly⟩,
+  ⟨0x4b6a75d50efca41b, "ordered|pkg/basm/basm.go|(*BasmInstance).String|bi.matchers|0", ["calls", "concat"], .debugOnly⟩,
+  ⟨0x659ea33b0843819f, "ordered|pkg/basm/creatorbm.go|(*BasmInstance).CreateConnectingProcessor|procbuilder.Allopcodes|0", ["append", "calls", "early", "sorted"], .sortedAfter⟩,
+  ⟨0x51bca7163fba20a6, "ordered|pkg/basm/fragmentanalyzer.go|fragmentAnalyzer|bi.matchers|0", ["append", "calls", "output"], .insens "filters bi.matchers into a list that is only used for any-match tests on fragment lines"⟩,
+  ⟨0x6878880c31ad28da, "ordered|pkg/basm/fragmentanalyzer.go|fragmentAnalyzer|bi.matchers|1", ["accum", "calls", "early", "output"], .insens "a second matching matcher is an error (ambiguous, more than one operator match): the result is the unique matching opcode or the error, whatever the order"⟩,
+  ⟨0x38db60523639280a, "ordered|pkg/basm/matcherresolver.go|matcherResolver|bi.matchers|0", ["accum", "append", "calls", "output", "sorted"], .unproved "the indices of the matching matchers are sorted, but the indices of dynamically created instructions are themselves assigned in section-map order: choice keys and the numbering of alternatives may follow; CodeChoice takes the strict minimum word size; no artefact difference in repeated runs (corpus dyn_order_*.basm exercise it)"⟩,
+  ⟨0xc61d1271599207f3, "ordered|pkg/basm/matcherresolver.go|matcherResolver|bi.matchers|1", ["append", "calls", "output", "sorted"], .unproved "the indices of the matching matchers are sorted, but the indices of dynamically created instructions are themselves assigned in section-map order: choice keys and the numbering of alternatives may follow; CodeChoice takes the strict minimum word size; no artefact difference in repeated runs (corpus dyn_order_*.basm exercise it)"⟩,
+  ⟨0xa8fba5abe4a9d92f, "ordered|pkg/basm/metadatainfer.go|(*BasmInstance).bodyMetadataInfer|bi.matchers|0", ["append", "calls"], .insens "filters bi.matchers into lists that are only used for any-match tests (is this argument a symbol for some matcher)"⟩,
+  ⟨0x921413dc86d1477a, "ordered|pkg/basm/metadatainfer.go|(*BasmInstance).bodyMetadataInfer|bi.matchers|1", ["append", "calls"], .insens "filters bi.matchers into lists that are only used for any-match tests (is this argument a symbol for some matcher)"⟩,
+  ⟨0x4c230f1aa2dc149f, "ordered|pkg/bondgo/converter.go|(*BondgoCheck).Create_Connecting_Processor|procbuilder.Allopcodes|0", ["append", "calls", "sorted"], .sortedAfter⟩,
+  ⟨0x659006f57cdd5272, "ordered|pkg/bondgo/converter.go|(*BondgoRequirements).Abstract_assembler|procbuilder.Allopcodes|0", ["calls", "early", "send"], .thm .firstMatchUnique⟩,
+  ⟨0xe9c6798eaeb06582, "ordered|pkg/bondmachine/bondmachine.go|(*Bondmachine).AttachBenchmarkCoreV2|procbuilder.Allopcodes|0", ["append", "calls", "sorted"], .sortedAfter⟩,
+  ⟨0x71d7b5c00d4b83c0, "ordered|pkg/bondmachine/bondmachine.go|(*Bondmachine).Attach_benchmark_core|procbuilder.Allopcodes|0", ["append", "calls", "sorted"], .sortedAfter⟩,
+  ⟨0x4c1414bf89936100, "ordered|pkg/procbuilder/dynamical_instructions.go|EventuallyCreateInstruction|Allopcodes|0", ["calls", "early"], .thm .firstMatchUnique⟩,
+  ⟨0x45c661b8f2a89d4d, "ordered|pkg/procbuilder/evolutionary.go|(*Machine).MelInit|Allopcodes|0", ["append", "calls"], .offpath "evolutionary tools (mel), not a build path"⟩,
+  ⟨0x7110862d7cd8f9df, "ordered|pkg/procbuilder/evolutionary.go|(*Machine).MelInit|Allopcodes|1", ["accum", "calls"], .offpath "evolutionary tools (mel), not a build path"⟩,
+  ⟨0x7a5abe6923dfa07f, "ordered|pkg/procbuilder/machine.go|(*Machine_json).Dejsoner|Allopcodes|0", ["accum", "calls"], .thm .firstMatchUnique⟩,
   ⟨0x0dd23e0d0dd9ca5c, "rand|cmd/bondmachine/bondmachine.go|init|math/rand.Seed|0", [], .insens "seeds math/rand for the simulator and the evolutionary tools; no build path draws from it"⟩,
   ⟨0xc47184300f840b3a, "rand|pkg/procbuilder/arch.go|(*Arch).Program_generate|math/rand.Intn|0", [], .offpath "random program generation for pkg/procbuilder/evolutionary.go, by design"⟩,
   ⟨0xb69c9b7d37652484, "rand|pkg/procbuilder/conproc.go|RandStringBytes|math/rand.Intn|0", [], .offpath "helper without callers in the build tools"⟩,
